@@ -342,3 +342,11 @@ func toInts(b []byte) []int {
 	}
 	return out
 }
+
+func mustRead(path string) []byte {
+	b, err := os.ReadFile(path)
+	if err != nil {
+		panic(err)
+	}
+	return b
+}
